@@ -82,12 +82,14 @@ def build_var_cases(fmt, stride16):
         # ---- PUT: mem -> ext
         c = Case('PUT-f%d-x%d' % (fmt, X), 1); ctx = []
         c.op('*', 'create', f=0, path='a.nc', fmt=fmt)
+        c.op('*', 'def_dim', f=0, name='t', unlim=1)
         plan = []
         for mi, M in enumerate(MEMS):
             vals = values_for(C.MEM[M], xd, stride16)
             plan.append((M, vals))
             c.op('*', 'def_dim', f=0, name='d%d' % mi, len=len(vals))
-            c.op('*', 'def_var', f=0, name='p%d' % mi, xtype=D.XT_NAME[X], dims=[mi])
+            # every third variable is a record variable that the put extends: range errors must not keep the other records from appearing
+            c.op('*', 'def_var', f=0, name='p%d' % mi, xtype=D.XT_NAME[X], dims=[0] if mi % 3 == 2 else [mi + 1])
         c.op('*', 'enddef', f=0)
         for mi, (M, vals) in enumerate(plan):
             for api in ((None, 'flex') if mi % 3 == 0 else (None,)):
